@@ -4,10 +4,14 @@ package main
 
 import (
 	"bytes"
+	"context"
 	"encoding/hex"
 	"fmt"
 
 	"github.com/superfly/macaroon"
+	"github.com/superfly/macaroon/bundle"
+	"github.com/superfly/macaroon/flyio"
+	"github.com/superfly/macaroon/resset"
 
 	"verifharness/internal/coqw"
 	"verifharness/internal/cs"
@@ -70,10 +74,10 @@ const (
 	keyEvil2 = 21
 )
 
-var dataIDs = []uint64{0, 1, 2, 6, 7, 11, 12, 13, 14}
+var dataIDs = []uint64{0, 1, 2, 6, 7, 11, 12, 13, 14, 18, 1, 18}
 var attIDs = []uint64{3, 4, 9}
 var wrapIDs = []uint64{5, 10, 16, 17}
-var ticketCavIDs = []uint64{8, 15}
+var ticketCavIDs = []uint64{8, 15, 19}
 
 func (b *builder) randData(n int) []sym.ACav {
 	var o []sym.ACav
@@ -368,6 +372,10 @@ func genC01(c *ctx) {
 		for _, s := range held {
 			snaps = append(snaps, snapOf(b.env.Slots[s]))
 		}
+		// the held tokens are in ordinary use: each has been verified before the attacker starts
+		for _, hs := range held {
+			b.do(sym.Op{Kind: "OVerify", S: hs, K: keyRoot, Slots: f.discharges, Tr: f.trust()})
+		}
 		target := b.slot()
 		b.do(sym.Op{Kind: "ODecodeRaw", Dst: target, Src: rng.Pick(b.r, held)})
 		class := ""
@@ -496,6 +504,52 @@ func genC02(c *ctx) {
 		}
 		b.emit(st, "atten", true, oracle)
 	}
+	for i := 0; i < 20; i++ {
+		if f := bundleAttenuate3P(c.r.Fork()); f != "" {
+			b := newBuilder(c.r.Fork())
+			b.emit(st, "bundle-attenuate-3p", true, f)
+			break
+		}
+	}
+}
+
+// bundleAttenuate3P: the bundle-level half of "an added third-party caveat makes the token demand its discharge":
+// Verify, then Attenuate with a third-party caveat, then Validate WITHOUT verifying again must refuse; and after a fresh
+// Verify without the new discharge the token fails.  Implementation-side oracle (returns "" when fine).
+func bundleAttenuate3P(r *rng.R) string {
+	key := macaroon.NewSigningKey()
+	ka := macaroon.NewEncryptionKey()
+	m, _ := macaroon.New([]byte("k"), "https://perm.test", key)
+	m.Add(&flyio.Organization{ID: 1, Mask: resset.ActionAll})
+	hdr, _ := m.String()
+	b, _ := bundle.ParseBundle("https://perm.test", hdr)
+	if _, err := b.Verify(context.Background(), bundle.WithKey([]byte("k"), key, nil)); err != nil {
+		return "setup: " + err.Error()
+	}
+	one := uint64(1)
+	acc := &flyio.Access{OrgID: &one, Action: resset.ActionRead}
+	if b.Validate(acc) != nil {
+		return "setup: verified token does not clear"
+	}
+	c3, _ := macaroon.NewCaveat3P(ka, "https://tp.test")
+	extra := []macaroon.Caveat{c3}
+	if r.Bool() {
+		rd := resset.ActionRead
+		extra = append([]macaroon.Caveat{&rd}, extra...)
+	}
+	if err := b.Attenuate(extra...); err != nil {
+		return "setup: attenuate: " + err.Error()
+	}
+	if b.Validate(acc) == nil {
+		return "bundle clears a request right after Attenuate added a third-party caveat (no discharge presented, not re-verified)"
+	}
+	if len(b.UndischargedTicketsForThirdParty("https://tp.test")) != 1 {
+		return "attenuated bundle does not report the new undischarged ticket"
+	}
+	if _, err := b.Verify(context.Background(), bundle.WithKey([]byte("k"), key, nil)); err == nil {
+		return "attenuated token verifies without the discharge for the added third-party caveat"
+	}
+	return ""
 }
 
 // ---------------------------------------------------------------- C04: third-party caveats and their discharges
@@ -578,6 +632,12 @@ func genC04(c *ctx) {
 		_ = o3
 		b.emit(st, "3p/"+class, true, oracle)
 	}
+	// "sealing the same content twice never yields the same bytes": no AEAD nonce may repeat across the seals of this run
+	c.set.Notes["seals"] = map[string]any{"distinct_sealed_values": sym.Seals, "violation": sym.DupSeal}
+	if sym.DupSeal != "" {
+		b := newBuilder(c.r.Fork())
+		b.emit(st, "seal-nonce-reuse", true, sym.DupSeal)
+	}
 }
 
 // ---------------------------------------------------------------- C06: binding
@@ -642,6 +702,24 @@ func genC06(c *ctx) {
 				oracle = fmt.Sprintf("bound discharge presented with node %d: accepted=%v, expected %v (bound to %v)", ni, accepted(ob), want, bound)
 			}
 		}
+		// bind to a live token object, attenuate that same object in place, bind another discharge to it:
+		// the second binding must be to the attenuated token (rejected with the earlier state, accepted with the later)
+		live, early := b.slot(), b.slot()
+		b.do(sym.Op{Kind: "OClone", Dst: live, Src: root})
+		d1, d2 := b.slot(), b.slot()
+		b.do(sym.Op{Kind: "ODischarge", Dst: d1, Src: root, I: 1, K: keyTP1, Loc: 1, Proof: false})
+		b.do(sym.Op{Kind: "ODischarge", Dst: d2, Src: root, I: 1, K: keyTP1, Loc: 1, Proof: false})
+		b.do(sym.Op{Kind: "OBind", S: d1, Src: live})
+		b.do(sym.Op{Kind: "ODecodeRaw", Dst: early, Src: live})
+		b.do(sym.Op{Kind: "OAdd", S: live, Adds: []sym.ACav{{D: sym.DOf(13)}}})
+		b.do(sym.Op{Kind: "OBind", S: d2, Src: live})
+		if ob := b.do(sym.Op{Kind: "OVerify", S: early, K: keyRoot, Slots: []uint64{d2}}); accepted(ob) && oracle == "" {
+			oracle = "discharge bound to an attenuated token accepted with the less attenuated ancestor"
+		}
+		if ob := b.do(sym.Op{Kind: "OVerify", S: live, K: keyRoot, Slots: []uint64{d2}}); !accepted(ob) && oracle == "" {
+			oracle = "discharge bound to a token rejected with that very token"
+		}
+		b.do(sym.Op{Kind: "OVerify", S: live, K: keyRoot, Slots: []uint64{d1}})
 		// a token carrying a binding presented as a permission token is rejected
 		bt := b.slot()
 		b.do(sym.Op{Kind: "OClone", Dst: bt, Src: nodes[len(nodes)-1]})
@@ -840,8 +918,13 @@ func genC08(c *ctx) {
 			case 3:
 				b.do(sym.Op{Kind: "OVerify", S: root, K: keyRoot, Slots: []uint64{s}, Tr: []sym.Trust{{Loc: 1, Keys: []uint64{keyTP1}}}, Direct: false})
 			case 4:
-				// verifying the proof object itself under its discharge key is not reachable through the API; use direct verify of root with it
-				b.do(sym.Op{Kind: "OVerify", S: root, K: keyRoot, Slots: []uint64{s}, Direct: true})
+				// VerifyParsed on the live objects: a never-encoded (unfinalised) proof must not verify
+				live := b.env.Slots[s]
+				unfinal := live.Nonce.Proof && live.VerifNewProof()
+				ob := b.do(sym.Op{Kind: "OVerifyObjs", S: root, K: keyRoot, Slots: []uint64{s}, Tr: []sym.Trust{{Loc: 1, Keys: []uint64{keyTP1}}}})
+				if unfinal && accepted(ob) && oracle == "" {
+					oracle = "an unfinalised proof object was accepted by VerifyParsed"
+				}
 			case 5:
 				if encoded {
 					// hand-built extension from the published tail
